@@ -36,6 +36,7 @@ SIG = {"stable": 0, "have-local-offer": 1, "have-remote-offer": 2, "have-local-p
 NCFG = 4
 
 OK, INVALID, VALUE, OTHER = 0, 1, -1, -2
+CASE_DEADLINE = 30.0
 
 
 # ------------------------------------------------------------------ SDP text tools (independent of aiortc.sdp)
@@ -245,7 +246,10 @@ def run_case(case):
     leak = 0
     try:
         asyncio.set_event_loop(loop)
-        descs, obs, notes = loop.run_until_complete(_run_pair(cfg, ops))
+        try:
+            descs, obs, notes = loop.run_until_complete(asyncio.wait_for(_run_pair(cfg, ops), CASE_DEADLINE))
+        except asyncio.TimeoutError:
+            descs, obs = [], [[-3, "a call did not return within %ss" % CASE_DEADLINE]]
         pend = [t for t in asyncio.all_tasks(loop) if not t.done()]
         for t in pend:
             t.cancel()
@@ -290,7 +294,7 @@ def full_alphabet():
     for p in (0, 1):
         out += [[p, 4, 1, 1, -1]]                                   # answer with an m-section missing
         out += [[p, 4, 1, e, -1] for e in (2, 3, 4, 5)]             # defective answers
-        out += [[p, 4, 0, e, -1] for e in (2, 3, 4)]                # defective offers
+        out += [[p, 4, 0, e, -1] for e in (2, 4)]                   # defective offers (ICE, DTLS)
     return out
 
 
@@ -335,7 +339,7 @@ class C14(Check):
     prop = "C14"
     props_file = "Props/C14.v"
     models = ["Jsep"]
-    case_timeout = 20.0
+    case_timeout = 60.0
     random_quick = 3000
     level_note = (
         "Theorems are about Model/Jsep.v (one peer connection; descriptions abstracted to type + per media section "
@@ -347,7 +351,7 @@ class C14(Check):
         "self-initiated close() on remote DTLS shutdown is disabled in the harness (calls are strictly sequential).")
     rule = ("all call sequences of length <= 4 over the 16-symbol core alphabet {createOffer, createAnswer, "
             "setLocal(offer|answer|implicit), setRemote(offer|answer), close} x {peer 0, peer 1}, all of length <= 3 over "
-            "the 32-symbol full alphabet (adds setRemote of a mismatched answer and of offers/answers without "
+            "the 30-symbol full alphabet (adds setRemote of a mismatched answer and of offers/answers without "
             "ice-ufrag / rtcp-mux / a=setup / with a=setup:actpass), plus random sequences of length 5-40 biased "
             "towards legal continuations; 4 peer set-ups (audio+data/audio, data/none, audio/audio, "
             "audio+video+data/video+audio); distinct by (case, observations); non-trivial = at least one state-changing "
@@ -478,7 +482,7 @@ class C14(Check):
         with ctx.Pool(nproc) as pool:
             for chunk, outs in zip(chunks, pool.imap(_worker, chunks)):
                 for c, o in zip(chunk, outs):
-                    self._outs[json.dumps(c)] = o
+                    self._outs[id(c)] = (c, o)
 
     def extra_search_cases(self, rng, n):
         return [[rng.randrange(NCFG), self.random_ops(rng)] for _ in range(min(n, 6000))]
@@ -500,10 +504,13 @@ class C14(Check):
 
     # ------------------------------------------------------------ implementation / model glue
     def impl_run(self, case):
-        key = json.dumps(case)
-        if key not in self._outs:
-            self._outs[key] = run_case(case)
-        return self._outs[key]
+        # results are remembered per case OBJECT (the framework hands the same list back to
+        # encode / model_canon); a different object -- replay, shrinking -- is run afresh
+        hit = self._outs.get(id(case))
+        if hit is None or hit[0] is not case:
+            hit = (case, run_case(case))
+            self._outs[id(case)] = hit
+        return hit[1]
 
     def encode(self, case):
         descs = self.impl_run(case)[0]
@@ -525,6 +532,8 @@ class C14(Check):
         descs, obs, leak = impl_out
         if obs and obs[0] and obs[0][0] == -9:
             return ("harness-crash", "the case crashed the harness: %s" % (obs[0][1],))
+        if obs and obs[0] and obs[0][0] == -3:
+            return ("hang", obs[0][1])
         if leak:
             return ("leak", "tasks or threads survived the case (%d)" % leak)
         spec = [Spec(), Spec()]
